@@ -618,6 +618,57 @@ def gen_bound_then_other(rng, h):
     return prog
 
 
+def gen_nested_elim(rng, h):
+    """Targeted family for the re-check order: several elimination constraints
+    on one variable whose alternatives are nested patterns sharing a second
+    variable, applied to a nested argument that contains fresh (wildcard)
+    variables - resolving one constraint narrows variables the other needs."""
+    base = [("o", o, []) for o in range(5, 5 + h.nbase)]
+    un = [q for q in h.ids if h.arity(q) == 1]
+    bi = [q for q in h.ids if h.arity(q) == 2] or [4]
+    x, y, w = ("v", 0), ("v", 1), ("w",)
+
+    def leaf(p_y=0.35, p_w=0.25):
+        r = rng.random()
+        if r < p_y:
+            return y
+        if r < p_y + p_w:
+            return w
+        return rng.choice(base)
+
+    def nest(d):
+        if d == 0 or rng.random() < 0.25:
+            return leaf()
+        if rng.random() < 0.5:
+            return ("o", rng.choice(un), [nest(d - 1)])
+        return ("o", rng.choice(bi), [nest(d - 1), nest(d - 1)])
+
+    def alt():
+        a = nest(2)
+        return a if a[0] == "o" else ("o", rng.choice(un), [a])
+    ncons = rng.randint(2, 3)
+    cs = [("elim", x, [alt() for _ in range(rng.randint(2, 3))]) for _ in range(ncons)]
+    if rng.random() < 0.3:
+        cs.append(("sub", y, rng.choice(base), False))
+    res = rng.choice([y, x, ("o", rng.choice(un), [y])])
+    sig = (2, ("o", 3, [x, res]), cs)
+
+    def inst(t, d=0):
+        if t[0] == "v":
+            r = rng.random()
+            return w if r < 0.3 else (rng.choice(base) if r < 0.7 else ("o", rng.choice(un), [rng.choice(base)]))
+        if t[0] == "w":
+            return w if rng.random() < 0.5 else rng.choice(base)
+        if not t[2]:
+            return t if rng.random() < 0.8 else w
+        return ("o", t[1], [inst(a, d + 1) for a in t[2]])
+    a0 = rng.choice(rng.choice(cs[:ncons])[2])
+    arg = inst(a0)
+    if arg[0] != "o":
+        arg = rng.choice(base)
+    return [("inst", sig), ("inst", (0, arg, [])), ("apply", 0, 1, True)]
+
+
 def all_schedules(points: list[int], limit: int) -> list[list[int]]:
     """All choice vectors for the observed choice points (n! options each),
     truncated to `limit` vectors."""
@@ -704,6 +755,10 @@ def py_witness(h: C.Hierarchy, prog, mvals, cap=60):
                 out.append(t)
         return out
     spaces = [cands(v) for v in vs]
+    for v, sp in zip(vs, spaces):
+        if not sp:
+            # (i) some instantiation within the reported bounds must exist
+            problems.append(("no-instantiation-within-bounds", v.lower, v.upper))
     n = 0
     steps = [(mvals[f], mvals[x], mvals[r]) for f, x, r in steps_of(prog) if r < len(mvals)]
     for combo in itertools.product(*spaces):
